@@ -18,7 +18,7 @@ func init() {
 			"R2 silent skips are documented noise — an optional token consumed under a kind guard whose branch leaves no trace (no store, no differing phi at the merge point) must be one of the canonicalisations the property lists: INNER, OUTER, INTO, FROM after DELETE, an optional/trailing comma. " +
 			"R3 optional-position flags — a token.Pos field that is InvalidPos on some paths and a real position on others, where no other printed field is definitely different between the two cases, must be read by SQL(). " +
 			"C01/R2 (required tokens are printed) is shared. Does not decide: order of the printed pieces, survival of literal values through re-quoting (C15).",
-		Rules: []ruleFn{ruleC02R1, ruleC02R2, ruleC02R3, ruleC01R2, ruleC02R4, ruleC01R6, ruleC07R2, ruleC07R4, ruleC15R1, ruleC02R5, ruleC14R8, ruleC18R6, ruleC05R6, ruleC02R6},
+		Rules: []ruleFn{ruleC02R1, ruleC02R2, ruleC02R3, ruleC01R2, ruleC02R4, ruleC01R6, ruleC07R2, ruleC07R4, ruleC15R1, ruleC02R5, ruleC14R8, ruleC18R6, ruleC05R6, ruleC02R6, ruleC15R3, ruleC15R4, ruleC15R6},
 	})
 }
 
